@@ -35,3 +35,22 @@ Example pvmt_first_use_writes :
   let fr := mkFrag 0 Semantic [] empty_index in
   fold_left access_step [Read (RByUuid 42); PvmtFirstUse 0 [mkNode 7 None (Some 100) [42] [42] None]] (ROk [fr]) <> ROk [fr].
 Proof. vm_compute. discriminate. Qed.
+
+(* 4. diagram parsing sets an attribute for the time of one factory call (aird._common.temporary_attribute): whatever
+      the element's attributes were — the attribute absent, present and empty, or present with a value, at any position —
+      they are exactly the same afterwards, also when two such blocks are nested; inside the block the attribute reads
+      as the temporary value and the others as before *)
+From V Require Import Model.TempAttr Proofs.TempAttrP.
+Theorem temporary_attribute_restores : forall k v k2 v2 a,
+  with_temp k v a = a /\
+  restore k (aget k a) (restore k2 (aget k2 (aset k v a)) (aset k2 v2 (aset k v a))) = a /\
+  aget k (aset k v a) = Some v /\ (forall j, j <> k -> aget j (aset k v a) = aget j a).
+Proof.
+  intros. split; [apply with_temp_restores|split; [apply nested_temp_restores|split; [apply aget_aset_same|intros; now apply aget_aset_other]]].
+Qed.
+Print Assumptions temporary_attribute_restores.
+(* restoring by truthiness drops an attribute that was present and empty *)
+Theorem temporary_attribute_truthy_refuted :
+  with_temp_truthy 7 5 [(1, 3); (7, 0)] = [(1, 3)] /\ with_temp 7 5 [(1, 3); (7, 0)] = [(1, 3); (7, 0)].
+Proof. exact truthy_restore_refuted. Qed.
+Print Assumptions temporary_attribute_truthy_refuted.
